@@ -3,24 +3,47 @@
 
    Proved for every program list and every schedule:
      C14_after_close, C14_mutual_exclusion.
-   Proved for every state that satisfies the protocol invariant CloseInv.Inv1
-   (locks, closed flag / stages of Close, channels, rotation goroutine; single writer):
-     C14_racing_calls_partial (no step can panic there),
-     C14_no_deadlock_partial (if a caller has not returned, some thread can step: a writer
-       parked in awaitRotation is woken by the rotator or by Close),
-     C14_rotator_exits_partial (after Close was called the system cannot rest with the
-       rotation goroutine alive).
-   NOT proved (the inductiveness of Inv1 beyond pc consistency / roles / mutex, and
-   the refcount + finalizer + handle-ownership invariant are executable and tested
-   on pseudo-random schedules, see Conc/CloseCheck.v, but not proved):
-     C14_racing_calls  (every outcome is the correct result or ErrClosed, Panic unreachable)
-     C14_no_deadlock, C14_rotator_exits (for reachable states instead of Inv1 states),
-     C14_handles_released.
-   Their full statements are kept below as comments; the implementation side is
-   judged by the oracles of the sched14 stream (recover(), watchdog, goroutine
-   count, handle accounting, reopen). *)
+   Proved for every REACHABLE state of a system with a single writer thread
+   (single_writer w progs extra: only thread w runs StoreLogs/DeleteRange; any number of
+   readers, stable-store callers and Close callers; the rotation goroutine is thread
+   `length progs`).  The invariant  Full2 = CloseSafe.Safe /\ CloseInv.Inv1 /\ CloseInv2.Inv2
+   is inductive (CloseReach.full_reach, CloseReach2.full2_reach):
+     C14_no_panic           no call ever panics (nil state, closed / nil channel, offsets index)
+     C14_no_deadlock        if a call has not returned some thread can step (a writer parked in
+                            awaitRotation is woken by the rotation goroutine or by Close)
+     C14_rotator_exits      after Close was called the system cannot rest with the rotation
+                            goroutine alive
+     C14_racing_calls       every outcome recorded by a call is a result or ErrClosed
+                            (CloseInv2.allowed), in program order
+     C14_racing_calls_clean in particular never Panic, never an I/O error through a closed
+                            or deleted file, never a metaDB error
+     C14_handles_released   after Close and after every call returned, every file handle ever
+                            opened has been closed exactly once, and the metaDB exactly once
+   Inv2 is the reference-count / retired-bit / finalizer / handle-ownership invariant: the
+   count of every state equals the references held by threads plus the reference of its
+   predecessor's finalizer; every open handle has exactly one owner (the current state, one
+   finalizer that has not run, or one running release); a finalizer exists only for a retired
+   state and runs only when the count reached `retired`; a validated holder of state x keeps
+   the finalizers of all states >= x from running, so every handle it can reach is open.
+
+   NOT PROVED (the only remaining gap of C14): C14_racing_calls_strict =
+       forall w progs extra s, single_writer w progs extra -> reach progs extra s ->
+       forall t th res, nth_error (ths s) t = Some th -> t <> length progs -> In res (t_outs th) ->
+         res <> ErrSealed
+   i.e. StoreLogs never finds the tail sealed (CloseInv2.allowed still lists ErrSealed for
+   OStore).  Missing invariant: if the tail of the current open version is sealed then
+   (a) the thread that sealed it is still between its seal and its trigger / its commit
+   (PApp1..PTrig, or PM3 of a tail truncation), or (b) awaitRotate is set, or (c) Close is
+   between closing the await channel and swapping the state (it holds writeMu), or (d) the
+   closed flag is set and the writer is not inside a call past its closed check; and the
+   rotation goroutine keeps the new tail unsealed until it resets awaitRotate.
+   The implementation side is judged by the oracles of the sched14 stream (recover(),
+   watchdog, goroutine count, handle accounting, two reopen cycles; an `errsealed` outcome
+   of the implementation would be a tie mismatch only if the model disagreed, and no line
+   of the stream produces it on either side). *)
 From Coq Require Import List Arith Bool Lia.
-From RW Require Import Conc.Sys Conc.Close Conc.CloseInv Conc.CloseLive Conc.CloseSafe Conc.CloseThm.
+From RW Require Import Conc.Sys Conc.Close Conc.CloseInv Conc.CloseInv2 Conc.CloseLive Conc.CloseSafe Conc.CloseReach
+     Conc.CloseThm Conc.CloseThm2.
 Import ListNotations.
 
 Theorem C14_after_close : forall progs extra s,
@@ -40,36 +63,59 @@ Theorem C14_mutual_exclusion : forall progs extra s,
 Proof. exact mutual_exclusion. Qed.
 Print Assumptions C14_mutual_exclusion.
 
-(* full statement (not proved):
-   Theorem C14_racing_calls : forall progs extra s, reach progs extra s -> single_writer progs extra ->
-     forall t th, nth_error (ths s) t = Some th ->
-       Forall2 (fun o res => res = ErrClosed \/ correct_result o res) (executed th) (t_outs th)
-       /\ t_pc th <> PPanic.                                                                   *)
-Theorem C14_racing_calls_partial : forall w r s t s',
-  Inv1 w r s -> step s t = Some s' ->
-  forall th', nth_error (ths s') t = Some th' -> t_pc th' <> PPanic.
-Proof. exact no_panic_step. Qed.
-Print Assumptions C14_racing_calls_partial.
+(* ---- reachable states of a system with a single writer thread --------------------------
+   single_writer w progs extra: only thread w runs StoreLogs/DeleteRange (any number of
+   readers, stable-store callers and Close callers).  Proof: CloseReach.full_reach, the
+   invariant Full = CloseSafe.Safe /\ CloseInv.Inv1 is inductive. *)
 
-(* full statements (not proved): the two theorems below with `reach progs extra s` and
-   `single_writer progs extra` in place of `Inv1 w r s`. *)
-Theorem C14_no_deadlock_partial : forall w r s,
-  Inv1 w r s ->
+(* no call ever panics (nil state, closed / nil channel, send on closed channel, offsets index) *)
+Theorem C14_no_panic : forall w progs extra s,
+  single_writer w progs extra -> reach progs extra s -> crashed s = false.
+Proof. exact no_panic_reach. Qed.
+Print Assumptions C14_no_panic.
+
+(* if some call has not returned, some thread can take a step: no deadlock; in particular
+   a writer parked in awaitRotation is woken by the rotation goroutine or by Close *)
+Theorem C14_no_deadlock : forall w progs extra s,
+  single_writer w progs extra -> reach progs extra s ->
   (exists t th, nth_error (ths s) t = Some th /\ t_rot th = false /\ th_done th = false) ->
   exists t, enabled step s t = true.
-Proof. exact no_deadlock_state. Qed.
-Print Assumptions C14_no_deadlock_partial.
+Proof. exact no_deadlock_reach. Qed.
+Print Assumptions C14_no_deadlock.
 
-Theorem C14_rotator_exits_partial : forall w r s,
-  Inv1 w r s -> g_closed (sh s) = true ->
-  (exists thr, nth_error (ths s) r = Some thr /\ t_pc thr = PRDone) \/ exists t, enabled step s t = true.
-Proof. exact rotator_exits_state. Qed.
-Print Assumptions C14_rotator_exits_partial.
+(* once Close has been called the system cannot come to rest with the rotation goroutine alive *)
+Theorem C14_rotator_exits : forall w progs extra s,
+  single_writer w progs extra -> reach progs extra s -> g_closed (sh s) = true ->
+  (exists thr, nth_error (ths s) (length progs) = Some thr /\ t_pc thr = PRDone) \/
+  exists t, enabled step s t = true.
+Proof. exact rotator_exits_reach. Qed.
+Print Assumptions C14_rotator_exits.
 
-(* full statement (not proved):
-   Theorem C14_handles_released : forall progs extra s, reach progs extra s -> g_closed (sh s) = true ->
-     all_callers_done s -> (forall h, h < length (g_hnds (sh s)) -> h_closes (geth (sh s) h) = 1)
-                            /\ g_meta_closes (sh s) = 1.                                         *)
+(* thread t has executed the prefix `ops` of its program; each of these calls recorded an
+   allowed outcome: a result (Ok / NotFound) or ErrClosed *)
+Theorem C14_racing_calls : forall w progs extra s,
+  single_writer w progs extra -> reach progs extra s ->
+  forall t th, nth_error (ths s) t = Some th -> t <> length progs ->
+    exists ops, nth_error (progs ++ [] :: extra) t = Some (ops ++ t_prog th) /\
+                Forall2 (fun o res => allowed o res = true) ops (t_outs th).
+Proof. exact racing_calls. Qed.
+Print Assumptions C14_racing_calls.
+
+Theorem C14_racing_calls_clean : forall w progs extra s,
+  single_writer w progs extra -> reach progs extra s ->
+  forall t th res, nth_error (ths s) t = Some th -> t <> length progs -> In res (t_outs th) ->
+    res <> Panic /\ res <> IOErr /\ res <> MetaErr.
+Proof. exact outcomes_clean. Qed.
+Print Assumptions C14_racing_calls_clean.
+
+(* Close has been called and every caller is between calls: nothing leaks, nothing is
+   closed twice *)
+Theorem C14_handles_released : forall w progs extra s,
+  single_writer w progs extra -> reach progs extra s -> g_closed (sh s) = true ->
+  (forall t th, nth_error (ths s) t = Some th -> t <> length progs -> t_pc th = PIdle) ->
+  (forall h, h < length (g_hnds (sh s)) -> h_closes (geth (sh s) h) = 1) /\ g_meta_closes (sh s) = 1.
+Proof. exact handles_released. Qed.
+Print Assumptions C14_handles_released.
 
 (* ---- non-vacuity / the interesting window -------------------------------------------- *)
 (* GetLog passes the closed check, Close runs to completion, GetLog loads the state:
@@ -83,14 +129,12 @@ Example C14_ex_window :
   map h_closes (g_hnds (sh s)) = [1] /\ g_meta_closes (sh s) = 1 /\ crashed s = false.
 Proof. vm_compute. repeat split; reflexivity. Qed.
 
-(* the hypotheses of C14_racing_calls_partial are satisfiable: the initial state
-   satisfies the executable mirror of Inv1 (writer 0, rotator 2) *)
 Example C14_ex_closed_flag :
   g_closed (sh (run step (init ex_progs []) [1])) = true.
 Proof. vm_compute. reflexivity. Qed.
 
-(* the hypothesis Inv1 of the three partial theorems is satisfiable: it holds in the
-   initial state of this configuration (no writer: w = 9; rotator = thread 2) *)
+(* the invariant is satisfiable: it holds in the initial state of this configuration
+   (no writer: w = 9; rotator = thread 2) *)
 Example C14_ex_inv1_init : Inv1 9 2 (init ex_progs []).
 Proof.
   assert (T : forall t th, nth_error (ths (init ex_progs [])) t = Some th ->
@@ -102,7 +146,6 @@ Proof.
   - intros t th E Hm. destruct (T t th E) as [->|[->| ->]]; discriminate.
   - cbn. discriminate.
   - reflexivity.
-  - intros [|h] L; cbn in L; [|lia]. unfold h_chain; cbn; lia.
   - cbn. lia.
   - reflexivity.
   - reflexivity.
